@@ -83,7 +83,9 @@ Print Assumptions C09_type_conflict_local_partial.
 Theorem C09_rejected_iff :
   forall st k vs, rejected st (k, vs) = true <->
     match find_e k st with
-    | Some e => vs <> [] /\ evtype e <> 0%N /\ all_type (evtype e) vs = false
+    | Some e => exists p r, vs = p :: r /\
+                  ((evtype e <> 0%N /\ all_type (evtype e) vs = false) \/
+                   (evals e = [] /\ all_type (ptype p) vs = false))
     | None => exists p r, vs = p :: r /\ all_type (ptype p) vs = false
     end.
 Proof. exact rejected_iff. Qed.
